@@ -1212,3 +1212,25 @@ class RefAPI:
     @staticmethod
     def colname(col):
         return col.name
+
+    @staticmethod
+    def collect(tbl, *, keep_col_refs=True):
+        """collect(): same data, names, order and grouping; references stay valid"""
+        if keep_col_refs:
+            return tbl._clone()
+        return alias()(tbl._clone(_group=[]))
+
+    @staticmethod
+    def transfer_col_references(table, ref_source):
+        m = {name: cid for name, cid in ref_source._visible}
+        cols, vis = {}, []
+        back = {}
+        for name, cid in table._visible:
+            if name not in m:
+                raise RefError(f"transfer_col_references: column {name} missing in the reference source")
+            cols[m[name]] = table._cols[cid]
+            vis.append((name, m[name]))
+            back[cid] = m[name]
+        t = table._clone(_cols=cols, _visible=vis, _group=[back[c] for c in table._group if c in back])
+        t._origins = set(table._origins) | set(ref_source._origins)
+        return t
